@@ -313,6 +313,9 @@ def posteriors(ck):
                 a, b = pairs[int(rng.integers(0, len(pairs)))]
                 means[b] = means[a]
                 prec[b] = prec[a]
+        zero_w = k > 1 and rng.random() < 0.3
+        if zero_w:                             # a weight exactly 0: an empty component
+            w = np.insert(pow2_weights(rng, k - 1), int(rng.integers(0, k)), 0.0)
         g = GMM(k=k, dim=dim, prec_type=ptype, means=means, precisions=prec, weights=w)
         n = int(rng.integers(1, 6))
         x = rng.integers(-4, 5, (n, dim)).astype(float)
@@ -325,7 +328,7 @@ def posteriors(ck):
         z = g.map_label(x)
         pop = g.pop(like.copy())
         ck.count(("like", ptype, means.tobytes(), prec.tobytes(), w.tobytes(), x.tobytes()),
-                 bucket="gmm:%s:%s" % (ptype, "outlier" if outl else "inlier"))
+                 bucket="gmm:%s:%s%s" % (ptype, "outlier" if outl else "inlier", ":zero-weight" if zero_w else ""))
         rep = {"prec_type": ptype, "k": k, "dim": dim, "means": means.tolist(), "precisions": prec.tolist(),
                "weights": w.tolist(), "x": x.tolist()}
         for i in range(n):
@@ -341,6 +344,11 @@ def posteriors(ck):
         for i in range(n):
             if np.any(like[i, :z[i]] >= like[i, z[i]]):
                 ck.fail("map_label/tie-rule", "map_label does not return the first maximum", dict(rep, row=i))
+        if zero_w:
+            if np.any(like[:, w == 0] != 0) or np.any((w[z] == 0) & (mix > 0)) or np.any(pop[w == 0] != 0):
+                ck.fail("gmm-zero-weight-component/gets-likelihood-or-membership",
+                        "a component of weight exactly 0 has non-zero likelihood / population or is a MAP label: like %s, labels %s, pop %s" % (
+                            like[:, w == 0].tolist(), z.tolist(), pop.tolist()), rep)
         if abs(pop.sum() - n) > 1e-9:
             ck.fail("gmm-responsibilities/underflow-row" if np.any(mix < tiny) else "gmm-responsibilities/row-sum",
                     "GMM memberships (pop of likelihood(x)) do not sum to one per sample: sum(pop) = %r, n = %d, "
@@ -354,7 +362,7 @@ def posteriors(ck):
         if far:
             x[0] = float(rng.choice([-1, 1])) * float(rng.choice([60.0, 1e3, 1e5]))
         G = gg.GGM(shape=float(rng.integers(1, 5)), scale=float(rng.integers(1, 4)), mean=float(rng.integers(-1, 2)),
-                   var=float(rng.integers(1, 4)), mixt=float(rng.integers(1, 8)) / 8.0)
+                   var=float(rng.integers(1, 4)), mixt=float(rng.integers(0, 9)) / 8.0)     # incl. exactly 0 and 1
         gam = gg._gam_dens(G.shape, G.scale, x)
         gau = gg._gaus_dens(G.mean, G.var, x)
         with np.errstate(all="ignore"):
@@ -382,7 +390,7 @@ def posteriors(ck):
         # GGGM
         G3 = gg.GGGM(shape_n=float(rng.integers(1, 4)), scale_n=float(rng.integers(1, 3)), mean=0.0, var=float(rng.integers(1, 3)),
                      shape_p=float(rng.integers(1, 4)), scale_p=float(rng.integers(1, 3)),
-                     mixt=np.array([2, 4, 2]) / 8.0)
+                     mixt=np.array([[2, 4, 2], [0, 4, 4], [4, 4, 0], [0, 8, 0], [1, 6, 1], [4, 0, 4]][int(rng.integers(0, 6))]) / 8.0)
         ng, y, pg = G3.component_likelihood(x)
         with np.errstate(all="ignore"):
             post = np.array(G3.posterior(x)).T
@@ -407,33 +415,57 @@ def posteriors(ck):
     N = ck.n(40, 400)
     for ci in range(N):
         k = int(rng.integers(1, 6))
-        prec = float(rng.choice([0.5, 1.0, 4.0, 16.0, 64.0, 256.0, 2000.0]))
+        prec = float(rng.choice([0.5, 1.0, 4.0, 16.0, 50.0, 100.0, 256.0, 2000.0]))
         m = rng.normal(size=(k, 3))
         m = (m.T / np.sqrt((m ** 2).sum(1))).T
         nullc = bool(rng.random() < 0.3)
         kk = k + 1 if nullc else k
         w = pow2_weights(rng, kk)
+        zero_w = kk > 1 and rng.random() < 0.4
+        if zero_w:                                  # a weight exactly 0 (boundary of the simplex): an empty component / null class
+            zi = int(rng.integers(0, kk))
+            w = np.insert(pow2_weights(rng, kk - 1), zi, 0.0)
         v = VonMisesMixture(k, prec, means=m, weights=w, null_class=nullc)
-        x = rng.normal(size=(4, 3))
+        x = rng.normal(size=(5, 3))
         x = (x.T / np.sqrt((x ** 2).sum(1))).T
         x[0] = m[0]
-        lwl = v.log_weighted_density(x)
+        x[1] = m[int(rng.integers(0, k))]
+        if zero_w and (not nullc or zi > 0):
+            x[2] = m[zi - 1 if nullc else zi]       # a sample AT the mean of the zero-weight component
+        x[3] = -m.sum(0) / np.sqrt((m.sum(0) ** 2).sum()) if np.abs(m.sum(0)).max() > 0 else x[3]    # far from the means
         with np.errstate(all="ignore"):
+            lwl = v.log_weighted_density(x)
             resp = v.responsibilities(x)
+            wd = v.weighted_density(x)
+            md = v.mixture_density(x)
             wl_mean = np.exp(lwl.T - lwl.mean(1)).T      # the pre-fix shift, only used to name the failure
-        ck.count(("vmf", m.tobytes(), x.tobytes(), prec, nullc), bucket="vmf:prec>=2000" if prec >= 2000 else "vmf:moderate")
+        ck.count(("vmf", m.tobytes(), x.tobytes(), prec, nullc, w.tobytes()),
+                 bucket="vmf:%s%s" % ("prec>=2000" if prec >= 2000 else "moderate", ":zero-weight" if zero_w else ""))
         rep = {"k": k, "precision": prec, "means": m.tolist(), "weights": w.tolist(), "null_class": nullc, "x": x.tolist()}
         for i in range(len(x)):
-            row = fl(lwl[i])
+            pos = [j for j in range(kk) if w[j] > 0]
+            row = fl(lwl[i][pos])
             mx = max(row)
             tbl = [(a - mx, math.exp(float(a - mx))) for a in row]       # exp oracle at the exact max-shifted arguments
             terms.append("qlist_close %s (vmf_resp (qlookup %s) %s) %s" % (cq(F(1, 10 ** 11)), ctbl(tbl), cql(row),
-                                                                        cql(fl(np.nan_to_num(resp[i], nan=-1.0)))))
+                                                                        cql(fl(np.nan_to_num(resp[i][pos], nan=-1.0)))))
             meta.append(("vmf-resp", dict(rep, i=i)))
             ok = finite(resp[i]) and abs(resp[i].sum() - 1) < 1e-12 and resp[i].min() >= 0
             if not ok:
                 ck.fail("vmf-responsibilities/%s" % ("exp-overflow-mean-shift" if not finite(wl_mean[i]) else "row-sum"),
                         "VonMisesMixture(precision=%g).responsibilities row = %s" % (prec, resp[i].tolist()), dict(rep, i=i))
+                continue
+            tag = "zero-weight-component" if zero_w else "positive-weights"
+            if np.any(resp[i][w == 0] != 0):
+                ck.fail("vmf-responsibilities/%s/probability-zero-component-gets-membership" % tag,
+                        "a component of weight exactly 0 has responsibility %s (precision %g)" % (resp[i][w == 0].tolist(), prec), dict(rep, i=i))
+            if finite(wd[i]) and md[i] > 1e-280:
+                want = wd[i] / md[i]
+                if np.max(np.abs(resp[i] - want)) > 1e-9:
+                    ck.fail("vmf-responsibilities/%s/not-weighted-density-over-mixture-density" % tag,
+                            "responsibilities %s differ from weighted_density / mixture_density = %s" % (resp[i].tolist(), want.tolist()), dict(rep, i=i))
+                if resp[i][int(np.argmax(resp[i]))] < want.max() - 1e-9:
+                    ck.fail("vmf-responsibilities/%s/argmax" % tag, "most probable component differs from the arg-max of weight * density", dict(rep, i=i))
 
     # ---- Segmentation.normalized_external_field, map_from_ppm
     N = ck.n(25, 200)
@@ -583,8 +615,14 @@ def gauss(ck):
         outl = rng.random() < 0.3
         if outl:
             x[-1] = 500.0
-        style = rng.choice(["hard", "dyadic", "model"])
-        if style == "hard":
+        style = rng.choice(["hard", "dyadic", "model", "hard-empty"]) if k > 1 else rng.choice(["hard", "dyadic", "model"])
+        if style == "hard-empty":              # one component receives no sample at all (population exactly 0)
+            empty = int(rng.integers(0, k))
+            others = [c for c in range(k) if c != empty]
+            lab = np.array(others)[np.concatenate([np.arange(k - 1), rng.integers(0, k - 1, n - (k - 1))])]
+            like = np.zeros((n, k))
+            like[np.arange(n), lab[:n]] = 1.0
+        elif style == "hard":
             lab = np.concatenate([np.arange(k), rng.integers(0, k, n - k)]) if n >= k else rng.integers(0, k, n)
             like = np.zeros((n, k))
             like[np.arange(n), lab[:n]] = 1.0
@@ -1461,6 +1499,87 @@ def magnitudes(ck):
                         if not (np.allclose(b2.prior_means, b1.prior_means * c, rtol=1e-9, atol=0) and
                                 np.allclose(b2.prior_scale, b1.prior_scale / np.outer(c, c), rtol=1e-9, atol=0)):
                             ck.fail("scale-equivariance/BGMM.guess_priors/%s" % cls, "BGMM.guess_priors on rescaled data is not the rescaled prior", {"scale": c.tolist(), "x": x.tolist()})
+    # ---- translations by large offsets (data far from the origin compared with their spread), every estimator
+    from nipy.algorithms.segmentation.segmentation import Segmentation
+    N2 = ck.n(12, 80)
+    for ci in range(N2):
+        dim = 1 + ci % 3
+        k = 2 + (ci // 3) % 2
+        n = 24
+        empty = (ci % 4 == 3)
+        labs = np.arange(k - 1) if empty else np.arange(k)        # optionally one component without any sample
+        zt = np.concatenate([labs, rng.choice(labs, n - len(labs))])
+        cent = rng.integers(-5, 6, (k, dim)).astype(float)
+        x = cent[zt] + np.round(rng.normal(size=(n, dim)) * 8) / 8.0         # multiples of 1/8: x + 2^30 is exact
+        l0 = np.zeros((n, k))
+        l0[np.arange(n), zt] = 1
+
+        def gmm_fit(data, ptype, niter):
+            g = GMM(k, dim, ptype)
+            g.guess_regularizing(data)
+            g.update(data, l0.copy())
+            for _ in range(niter):
+                g.update(data, g._Estep(data))
+            like = g.likelihood(data)
+            return {"means": g.means, "precisions": g.precisions, "weights": g.weights, "memberships": like / like.sum(1, keepdims=True)}
+
+        def vb_fit(data, ptype, niter):
+            v = bgmm.VBGMM(k, dim)
+            v.guess_priors(data)
+            v._Mstep(data, l0.copy())
+            for _ in range(niter):
+                l = v._Estep(data)
+                v._Mstep(data, (l.T / np.maximum(l.sum(1), 1e-300)).T)
+            return {"means": v.means, "precisions": v.scale, "weights": v.weights, "dof": v.dof, "shrinkage": v.shrinkage}
+        ests = [("GMM-diag", gmm_fit, "diag"), ("GMM-full", gmm_fit, "full"), ("VBGMM", vb_fit, "full")]
+        for e in (20, 27, 30):
+            t = 2.0 ** e * rng.choice([-1.0, 1.0], dim)
+            for name, f, ptype in ests:
+                for niter, wf in ((0, "mstep"), (2, "em")):
+                    ck.count(("transl", name, wf, ci, e), bucket="translation:%s:%s:2^%d%s" % (name, wf, e, ":empty-component" if empty else ""))
+                    rep = {"estimator": name, "workflow": wf, "k": k, "dim": dim, "offset": t.tolist(), "x": x.tolist(), "labels": zt.tolist(),
+                           "empty_component": bool(empty)}
+                    with np.errstate(all="ignore"):
+                        a = f(x, ptype, niter)
+                        try:
+                            b = f(x + t, ptype, niter)
+                        except Exception as ex:
+                            ck.fail("translation-equivariance/%s/%s/offset=2^%d" % (name, wf, e), "%s on data translated by %s raised %s: %s" % (name, t.tolist(), type(ex).__name__, ex), rep)
+                            continue
+                    errs = {}
+                    for key in a:
+                        want = a[key] + t if key == "means" else a[key]
+                        scale_ = 1.0 if key in ("means", "weights", "memberships") else float(np.max(np.abs(a[key])))
+                        with np.errstate(all="ignore"):
+                            errs[key] = float(np.max(np.abs(b[key] - want)) / scale_)
+                    # the translated data carry an absolute rounding error ~ 2^e * 1e-16 into the centred quantities;
+                    # EM iterations amplify it (soft memberships of overlapping clusters): tolerance scaled with the offset
+                    tol = max(1e-7, 2.0 ** e * (1e-14 if wf == "mstep" else 2e-12))
+                    if not (max(errs.values()) < tol):
+                        ck.fail("translation-equivariance/%s/%s/offset=2^%d" % (name, wf, e),
+                                "%s fitted on data translated by %s is not the translated fit (means + offset, everything else unchanged): errors %s" % (name, t.tolist(), errs),
+                                dict(rep, errors=errs))
+        # Segmentation.vm_step (class means / variances from the posterior maps)
+        shape = (3, 3, 3)
+        data = np.round(rng.normal(size=shape) * 8) / 8.0 * 10
+        mu0 = np.array([-5.0, 5.0])
+        ppm = rng.integers(1, 8, shape + (2,)).astype(float)
+        ppm = ppm / ppm.sum(-1, keepdims=True)
+        for e in (20, 27, 30):
+            t = 2.0 ** e
+            res = []
+            for off in (0.0, t):
+                S = Segmentation(data + off, ppm=ppm.copy(), beta=0.2, ngb_size=6)
+                S.vm_step()
+                res.append((S.mu.ravel() - off, S.sigma.ravel()))
+            ck.count(("transl", "seg", ci, e), bucket="translation:Segmentation.vm_step:2^%d" % e)
+            em = float(np.max(np.abs(res[0][0] - res[1][0])))
+            es = float(np.max(np.abs(res[0][1] - res[1][1]) / np.abs(res[0][1])))
+            if not (em < 1e-4 and es < 1e-4):
+                ck.fail("translation-equivariance/Segmentation.vm_step/offset=2^%d" % e,
+                        "Segmentation.vm_step on intensities translated by 2^%d: class means error %.3g, class variances relative error %.3g "
+                        "(variances %s vs %s)" % (e, em, es, res[1][1].tolist(), res[0][1].tolist()),
+                        {"data": data.tolist(), "ppm": ppm.tolist(), "offset": t})
     if ck.build is not None and ck.build.ok:
         res = ck.coq_bools(HDR, terms, shard=120, name="magn")
         ck.cov["traces_validated_against_impl"] += len(res)
